@@ -126,6 +126,15 @@ def sweep_tu(path, u, accepted, rt_reps):
            "  const int part = argc > 1 ? std::atoi(argv[1]) : 0, nparts = argc > 2 ? std::atoi(argv[2]) : 1; int k = 0;"]
     for rep, opname in accepted:
         out.append('  if (k++ %% nparts == part) c13::sweep<c13::%s, %s>("%s", %s);' % (opname, rep, u.name, u.maker))
+    # scalar operators with a scalar type wider than / different from the rep (added after seeded change C13b)
+    wider = {"int8_t": ["int32_t"], "uint8_t": ["int32_t"], "int16_t": ["int32_t", "uint32_t"], "uint16_t": ["int32_t"],
+             "int32_t": ["int64_t", "uint32_t"], "uint32_t": ["int64_t"], "float": ["double"], "double": ["long double"]}
+    for rep, opname in accepted:
+        if opname in ("mul_qs", "mul_sq", "div_qs", "muleq", "diveq"):
+            for sc in wider.get(rep, []):
+                if opname in ("muleq", "diveq") and sc in ("double", "long double") and rep not in ("float", "double"):
+                    continue
+                out.append('  if (k++ %% nparts == part) c13::sweep_scalar<c13::%s, %s, %s>("%s", %s, "%s");' % (opname, rep, sc, u.name, u.maker, sc))
     for rep in rt_reps:
         out.append('  if (k++ %% nparts == part) c13::roundtrip<%s>("%s", %s);' % (rep, u.name, u.maker))
     out.append("  return 0; }")
